@@ -239,6 +239,49 @@ fn scenario(v: &[Trans], e: Event, raise: Event, variant: u64) -> Scenario {
     }
 }
 
+/// The vector sits in a state P that is entered with counter A = 1; every regular target decrements A
+/// on entry, which raises CounterZero there, and its CounterZero vector ends the machine. The action
+/// of the target that was entered is still due (the nested transition schedules nothing), so the
+/// returned action identifies the sampled target although the machine ends in the same call.
+fn chained_scenario(v: &[Trans], e: Event) -> (Scenario, usize) {
+    use maybenot::counter::{Counter, Operation};
+    let nstates = v.iter().filter(|t| t.0 < STATE_SIGNAL).map(|t| t.0).max().unwrap_or(0) + 1;
+    let su = if e == Event::NormalRecv { Event::PaddingRecv } else { Event::NormalRecv };
+    let p = nstates;
+    let mut t0 = enum_map! { _ => vec![] };
+    t0[su] = vec![Trans(p, 1.0)];
+    let mut states = vec![State::new(t0)];
+    for i in 1..nstates {
+        let mut s = State::new(enum_map! { Event::CounterZero => vec![Trans(STATE_END, 1.0)], _ => vec![] });
+        s.action = Some(Action::SendPadding {
+            bypass: false,
+            replace: false,
+            timeout: constant(i as f64),
+            limit: None,
+        });
+        s.counter = (Some(Counter::new(Operation::Decrement)), None);
+        states.push(s);
+    }
+    let mut tp = enum_map! { _ => vec![] };
+    tp[e] = v.to_vec();
+    let mut sp = State::new(tp);
+    sp.counter = (Some(Counter::new(Operation::Increment)), None);
+    states.push(sp);
+    let m0 = Machine::new(u64::MAX, 0.0, u64::MAX, 0.0, states).unwrap();
+    let s0 = State::new(enum_map! { Event::Signal => vec![Trans(1, 1.0)], _ => vec![] });
+    let mut s1 = State::new(enum_map! { _ => vec![] });
+    s1.action = Some(Action::Cancel { timer: Timer::All });
+    let m1 = Machine::new(0, 0.0, 0, 0.0, vec![s0, s1]).unwrap();
+    (
+        Scenario {
+            machines: vec![m0, m1],
+            calls: vec![vec![ext(su).unwrap()], vec![ext(e).unwrap()]],
+            delivered: vec![e],
+        },
+        p,
+    )
+}
+
 /// (state of machine 0, its action in the last call, whether machine 1 saw a Signal in the last call)
 fn run_scenario(sc: &Scenario, word: u32) -> Result<(usize, Option<crate::drive::Act>, bool, Vec<crate::drive::Act>), String> {
     let fw_rng = WordRng { word, draws: 0 };
@@ -466,6 +509,38 @@ impl Prop for C06 {
                         format!(
                             "draw {kk}: the state declares transitions for {e:?} only, yet raising {raise:?} (machine 0 received {:?}) left machine 0 in state {m0_state} with actions {acts:?} (signal observed: {signalled})",
                             other.delivered
+                        ),
+                        desc(),
+                    );
+                    return;
+                }
+            }
+        }
+        // 5. the sampled target is entered even when a chained CounterZero ends the machine in the same call
+        if ext(e).is_some() {
+            let (sc, p) = chained_scenario(&v, e);
+            for kk in some_draws.iter().copied().chain(probes.iter().copied().step_by(8)) {
+                rng.word = kk << 9;
+                let expect = st.sample_state(e, &mut rng);
+                let (m0_state, m0_act, signalled, acts) = match run_scenario(&sc, kk << 9) {
+                    Ok(x) => x,
+                    Err(err) => {
+                        out.violation("C06/probe-construction", err, desc());
+                        return;
+                    }
+                };
+                out.bump("framework_probes_with_chained_counter_zero");
+                let ok = match expect {
+                    Some(t) if t < STATE_SIGNAL => m0_state == STATE_END && !signalled && m0_act.as_ref().map_or(false, |a| a.kind == 1 && a.timeout == t as u64),
+                    Some(t) if t == STATE_SIGNAL => m0_state == p && m0_act.is_none() && signalled,
+                    Some(_) => m0_state == STATE_END && m0_act.is_none() && !signalled,
+                    None => m0_state == p && m0_act.is_none() && !signalled,
+                };
+                if !ok {
+                    out.violation(
+                        "C06/dispatch-mismatch-chained",
+                        format!(
+                            "draw {kk}, vector declared for {e:?} in a state entered with counter A = 1, targets decrement A and end on CounterZero: sample_state selects {expect:?}, the framework left machine 0 in state {m0_state} with actions {acts:?} (signal observed: {signalled})"
                         ),
                         desc(),
                     );
